@@ -1003,3 +1003,141 @@ def rule_eq_decision(ctx: Ctx) -> None:
             ctx.fail("eq.decision", m, fn, f"{cname}.__eq__: " + "; ".join(problems), func=f"{cname}.__eq__", construct=f"{cname}.__eq__: decision table")
         else:
             ctx.ok("eq.decision", m, fn, what=f"{cname}.__eq__ == class test and {' and '.join(f[2:] for f in fields)} equal ({len(rows)} rows)")
+
+
+# --------------------------------------------------------------------------- measure.indices
+
+
+def rule_measure_indices(ctx: Ctx) -> None:
+    """measure.indices: the index arithmetic of z_measurement_gate (Aaronson-Gottesman), as linear forms in n = n_qubits and q = the measured
+    qubit.  Random outcome: p is the first non-zero entry of the X column among the *stabilizer* rows (index >= n); every other row with
+    an X there gets row p multiplied in (row_sum(.., p, row)); destabilizer row p - n := row p; row p := 0 with a single 1 in column
+    q + n (Z_q); sign[p] := outcome.  Deterministic outcome: a scratch row with index 2n (2n zero columns) accumulates the stabilizer
+    rows i + n for the destabilizer rows i < n with an X; the outcome is the scratch row's sign r[2n]."""
+    repo = ctx.repo
+    m = repo.module(CLIFF)
+    fn = repo.anchor(CLIFF, "z_measurement_gate")
+    ctx.touch(m, fn)
+    ps = func_params(fn)
+    TB, Q = ps[0], ps[1]
+    defs = {}
+    for a in fn.body:
+        if isinstance(a, ast.Assign) and len(a.targets) == 1 and isinstance(a.targets[0], ast.Name):
+            defs[a.targets[0].id] = a.value
+    N = next((k for k, v in defs.items() if norm(v) == f"{TB}.n_qubits"), None)
+    if N is None:
+        raise AnalysisError("z_measurement_gate: n_qubits local not found")
+    bad: List[Tuple[ast.AST, str]] = []
+    n_ok = 0
+
+    def L(e):
+        return linear.clean(linear.lin(e) or {"?": 1})
+
+    def expect(node, e, want: Dict[str, int], what: str):
+        nonlocal n_ok
+        if L(e) == {k: v for k, v in want.items() if v != 0}:
+            n_ok += 1
+        else:
+            bad.append((node, f"{what} is `{short(e)}`, expected {linear.show(want)}"))
+    # -- the stabilizer-row search: an `if <entry> >= n` (or > n - 1) inside a loop, assigning p
+    rows_with_x = next((k for k, v in defs.items() if isinstance(v, ast.Subscript) and isinstance(v.value, ast.Call) and call_name(v.value) in ("np.nonzero",)), None)
+    search = [i for l in fn.body if isinstance(l, ast.For) for i in ast.walk(l) if isinstance(i, ast.If) and isinstance(i.test, ast.Compare) and N in norm(i.test)]
+    if not search or rows_with_x is None:
+        raise AnalysisError("z_measurement_gate: the search for a stabilizer row with an X was not found")
+    t = search[0].test
+    l_, op_, r_ = t.left, t.ops[0], t.comparators[0]
+    if isinstance(op_, (ast.Lt, ast.LtE)):       # n <= entry
+        l_, r_ = r_, l_
+        op_ = {ast.Lt: ast.Gt, ast.LtE: ast.GtE}[type(op_)]()
+    d = linear.clean(linear.sub(linear.lin(r_) or {"?": 1}, {N: 1}))
+    okc = (isinstance(op_, ast.GtE) and d == {}) or (isinstance(op_, ast.Gt) and d == {"": -1})
+    if okc and rows_with_x in norm(l_):
+        n_ok += 1
+    else:
+        bad.append((t, f"the stabilizer row is searched with `{short(t)}`: stabilizer rows are those with index >= {N}"))
+    pvar = next((norm(a.targets[0]) for a in ast.walk(search[0]) if isinstance(a, ast.Assign) and isinstance(a.targets[0], ast.Name) and rows_with_x in norm(a.value)), None)
+    if pvar is None:
+        raise AnalysisError("z_measurement_gate: the pivot row variable was not found")
+    split = next((i for i in fn.body if isinstance(i, ast.If) and pvar in norm(i.test)), None)
+    if split is None:
+        raise AnalysisError("z_measurement_gate: random / deterministic split not found")
+    from ..chains import positive as _pos
+    tt, neg = _pos(split.test)
+    rand_body, det_body = (split.orelse, split.body) if (neg != (isinstance(tt, ast.Compare) and isinstance(tt.ops[0], ast.Eq))) else (split.body, split.orelse)
+    # -- random branch
+    rs = [c for st in rand_body for c in ast.walk(st) if isinstance(c, ast.Call) and call_attr(c) == "row_sum" or (isinstance(c, ast.Call) and isinstance(c.func, ast.Name) and c.func.id == "row_sum")]
+    if len(rs) != 1 or len(rs[0].args) != 6:
+        raise AnalysisError("z_measurement_gate: row_sum of the random branch not found")
+    lp = next((l for st in rand_body for l in ast.walk(st) if isinstance(l, ast.For) and any(x is rs[0] for x in ast.walk(l))), None)
+    if lp is None or norm(rs[0].args[4]) != pvar or norm(rs[0].args[5]) != norm(lp.target):
+        bad.append((rs[0], f"random branch: `{short(rs[0], 70)}` must multiply the pivot row `{pvar}` into each other row with an X"))
+    else:
+        n_ok += 1
+    tname = next((norm(a.targets[0]) for st in rand_body for a in ast.walk(st) if isinstance(a, ast.Assign) and norm(a.value) == f"{TB}.table"), None)
+    stores = [a for st in rand_body for a in ast.walk(st) if isinstance(a, ast.Assign) and isinstance(a.targets[0], ast.Subscript) and tname is not None
+              and norm(a.targets[0].value) == tname]
+    copy_ = [a for a in stores if isinstance(a.value, ast.Subscript) and norm(a.value.value) == tname]
+    zero_ = [a for a in stores if isinstance(a.value, ast.Call) and call_name(a.value) == "np.zeros"]
+    one_ = [a for a in stores if isinstance(a.value, ast.Constant) and a.value.value == 1]
+    if len(copy_) == 1 and len(zero_) == 1 and len(one_) == 1:
+        expect(copy_[0], copy_[0].targets[0].slice, {pvar: 1, N: -1}, "the destabilizer row that receives the old pivot row")
+        expect(copy_[0], copy_[0].value.slice, {pvar: 1}, "the row copied into the destabilizer")
+        expect(zero_[0], zero_[0].targets[0].slice, {pvar: 1}, "the row that is cleared")
+        expect(zero_[0], zero_[0].value.args[0], {N: 2}, "the width of the cleared row")
+        sl = one_[0].targets[0].slice
+        if isinstance(sl, ast.Tuple) and len(sl.elts) == 2:
+            expect(one_[0], sl.elts[0], {pvar: 1}, "the row that becomes Z_q")
+            expect(one_[0], sl.elts[1], {Q: 1, N: 1}, "the column of the single 1 (the Z part of the measured qubit)")
+        else:
+            bad.append((one_[0], "the new stabilizer Z_q is not written as table[p, q + n] = 1"))
+        if not (copy_[0].lineno < zero_[0].lineno < one_[0].lineno):
+            bad.append((copy_[0], "the pivot row must be copied to the destabilizer before it is cleared and set to Z_q"))
+    else:
+        raise AnalysisError("z_measurement_gate: the three table stores of the random branch (copy, clear, set Z_q) were not found")
+    sg = [a for st in rand_body for a in ast.walk(st) if isinstance(a, ast.Assign) and isinstance(a.targets[0], ast.Subscript) and norm(a.targets[0].value) in (f"{TB}.phase", f"{TB}._phase")]
+    if len(sg) == 1:
+        expect(sg[0], sg[0].targets[0].slice, {pvar: 1}, "the sign entry that receives the outcome")
+    else:
+        bad.append((split, "random branch: the outcome is not stored into the sign of the new stabilizer row"))
+    rnd = [c for st in rand_body for c in ast.walk(st) if isinstance(c, ast.Call) and (call_name(c) or "").endswith("random.randint")]
+    if rnd:
+        a_ = [x.value if isinstance(x, ast.Constant) else None for x in rnd[0].args[:2]]
+        if a_ != [0, 2]:
+            bad.append((rnd[0], f"the random outcome is drawn with `{short(rnd[0])}`; randint(0, 2) draws 0 or 1 with equal probability"))
+        else:
+            n_ok += 1
+    # -- deterministic branch
+    rs2 = [c for st in det_body for c in ast.walk(st) if isinstance(c, ast.Call) and (call_attr(c) == "row_sum" or (isinstance(c.func, ast.Name) and c.func.id == "row_sum"))]
+    if len(rs2) != 1 or len(rs2[0].args) != 6:
+        raise AnalysisError("z_measurement_gate: row_sum of the deterministic branch not found")
+    lp2 = next((l for st in det_body for l in ast.walk(st) if isinstance(l, ast.For) and any(x is rs2[0] for x in ast.walk(l))), None)
+    if lp2 is not None and isinstance(lp2.target, ast.Name):
+        expect(rs2[0], rs2[0].args[4], {lp2.target.id: 1, N: 1}, "the stabilizer row multiplied into the scratch row")
+        expect(rs2[0], rs2[0].args[5], {N: 2}, "the index of the scratch row")
+        it = lp2.iter
+        sel = isinstance(it, ast.Subscript) and isinstance(it.slice, ast.Compare) and len(it.slice.ops) == 1
+        if sel:
+            c_ = it.slice
+            lo, oo, ro = c_.left, c_.ops[0], c_.comparators[0]
+            if isinstance(oo, (ast.Gt, ast.GtE)):
+                lo, ro = ro, lo
+                oo = {ast.Gt: ast.Lt, ast.GtE: ast.LtE}[type(oo)]()
+            d2 = linear.clean(linear.sub(linear.lin(ro) or {"?": 1}, {N: 1}))
+            if (isinstance(oo, ast.Lt) and d2 == {}) or (isinstance(oo, ast.LtE) and d2 == {"": -1}):
+                n_ok += 1
+            else:
+                bad.append((it, f"the deterministic outcome sums over `{short(it)}`: the destabilizer rows are those with index < {N}"))
+        else:
+            bad.append((it, f"the deterministic outcome sums over `{short(it)}` instead of the destabilizer rows (index < {N}) that have an X"))
+    outs = [a for st in det_body for a in ast.walk(st) if isinstance(a, ast.Assign) and isinstance(a.value, ast.Subscript) and isinstance(a.targets[0], ast.Name)
+            and "outcome" in a.targets[0].id or (isinstance(a, ast.Assign) and isinstance(a.value, ast.Subscript) and norm(a.value.value) == norm(rs2[0].args[2]))]
+    if outs:
+        expect(outs[0], outs[0].value.slice, {N: 2}, "the sign entry the deterministic outcome is read from")
+    vs = [c for st in det_body for c in ast.walk(st) if isinstance(c, ast.Call) and call_name(c) == "np.zeros" and c.args]
+    if vs:
+        expect(vs[0], vs[0].args[0], {N: 2}, "the width of the scratch row")
+    if bad:
+        for node, why in bad:
+            ctx.fail("measure.indices", m, node, f"z_measurement_gate: {why}", func="z_measurement_gate", construct=f"z_measurement_gate: {why[:70]}")
+    else:
+        ctx.ok("measure.indices", m, fn, what=f"{n_ok} index expressions of the measurement agree with the Aaronson-Gottesman layout")
